@@ -1,4 +1,5 @@
-// C11 harness: Find_Minimum / Find_Maximum and Minimization::minimize with recorded evaluation traces (case grammar: checks/C11.py)
+// C11 harness: Find_Minimum / Find_Maximum and Minimization::minimize with recorded evaluation traces (case grammar: checks/C11.py);
+// seq = several calls in one process on shared objects, nest = the objective of a minimisation runs a minimisation itself
 #include "common.hpp"
 #include "libphysica/Numerics.hpp"
 using namespace libphysica;
@@ -98,6 +99,11 @@ static void handle_seq(vh::Reader& r, vh::Out& o)
 			double res = kind == "fmin" ? Find_Minimum(g, xl, xr, tol) : Find_Maximum(g, xl, xr, tol);
 			o.f(res);
 			o.fl(trace);
+			// the identical request once more: same answer through the same evaluation points (token `same`)
+			std::vector<double> first = trace;
+			trace.clear();
+			double res2 = kind == "fmin" ? Find_Minimum(g, xl, xr, tol) : Find_Maximum(g, xl, xr, tol);
+			o.i(same_d(res, res2) && same_v(first, trace) ? 1 : 0);
 			continue;
 		}
 		NmCall call;
